@@ -103,7 +103,9 @@ def check(ctx):
     hs = [h for h in ast.walk(sp) if isinstance(h, ast.ExceptHandler)]
     ok = bool(hs) and dotted(hs[0].type) == "httping.HTTPException" and "self.respondent.errored = True" in src(hs[0]) and not any(isinstance(x, ast.Raise) for x in ast.walk(hs[0]))
     ctx.check(ok, "T1-contain", sp, "Patron.serviceResponse records errored/error instead of raising", "a malformed response is recorded")
-    found = defects.run(repo, [f for q, f in scope.items() if "/aio/http/" in q], ("D1", "D1b", "D3", "D4", "D5", "D5b", "D6"))
+    # the containing service loops themselves (their error arms are exactly the never-tested paths)
+    loops = [sr, sp] + [m for m in (ctx.cls("aio.http.serving", "Valet").own_method(n) for n in ("closeConnection", "serviceReps", "serviceAll")) if m is not None]
+    found = defects.run(repo, [f for q, f in scope.items() if "/aio/http/" in q] + loops, ("D1", "D1b", "D3", "D4", "D5", "D5b", "D6"))
     for fd in found:
         ctx.bad(fd.rule, fd.node, fd.construct, fd.why)
     ctx.ok("D-scope", "ioflo/aio/http", "%d parse-scope functions without internal-error constructs" % len(scope))
